@@ -138,6 +138,24 @@ def run_case(ctx, case):
         elif which == "bits-struct":
             d = C.BitsSwapped(C.Struct("a" / C.Bytes(1), "b" / C.GreedyBytes))
             want = ref_bitrev(data)
+        elif which == "bits-probe":
+            # streamed: a repeated two-byte field that runs out of data part-way, then a read-to-end field - nothing may be lost
+            d = C.BitsSwapped(C.Struct("xs" / C.GreedyRange(C.Int16ub), "rest" / C.GreedyBytes))
+            want = ref_bitrev(data)
+            ctx.count("swap_" + type(d).__name__)
+            r = outcome(lambda: d.parse(data))
+            xs = [int.from_bytes(want[i:i + 2], "big") for i in range(0, n - n % 2, 2)]
+            if r[0] != "ok" or list(r[1].xs) != xs or r[1].rest != want[n - n % 2:]:
+                bad("bitsswapped-probe-parse", "BitsSwapped(Struct(GreedyRange(Int16ub), GreedyBytes)) on %d bytes -> %r, expected xs=%r rest=%r" % (n, r[1] if r[0] == "ok" else r, xs, want[n - n % 2:]))
+            r2 = outcome(lambda: d.build(dict(xs=xs, rest=want[n - n % 2:])))
+            if r2 != ("ok", data):
+                bad("bitsswapped-probe-build", "build of the parsed value does not reproduce the data")
+            d2 = C.BitsSwapped(C.Struct("o" / C.Optional(C.Int32ub), "rest" / C.GreedyBytes))
+            r3 = outcome(lambda: d2.parse(data))
+            wo = int.from_bytes(want[:4], "big") if n >= 4 else None
+            if r3[0] != "ok" or r3[1].o != wo or r3[1].rest != (want[4:] if n >= 4 else want):
+                bad("bitsswapped-probe-parse", "BitsSwapped(Struct(Optional(Int32ub), GreedyBytes)) on %d bytes -> %r" % (n, r3[1] if r3[0] == "ok" else r3))
+            return
         ctx.count("swap_" + type(d).__name__)
         if which == "bytes-int":
             v = int.from_bytes(data, "little")
@@ -223,7 +241,7 @@ def run(ctx):
             cases.append(("rot", {"amount": amount, "group": group, "via": "const" if amount % 2 == 0 else "ctx"}, "g%d" % group))
     # --- swaps
     for n in range(1, 17):
-        for which in ("bytes-sized", "bytes-int", "bits-sized", "bits-unsized", "bits-struct"):
+        for which in ("bytes-sized", "bytes-int", "bits-sized", "bits-unsized", "bits-struct", "bits-probe"):
             cases.append(("swap", {"which": which, "n": n}, which))
     # --- codecs
     for enc in ("zlib", "gzip", "bzip2", "lzma"):
